@@ -189,7 +189,12 @@ def wfg(g):
 def wfg_ns(g):
     """Namespace part of the invariant: every name recorded with a namespace prefix is an element (the values of the two maps -
     a name or a list of names - are opaque here).  Stated last in postconditions."""
-    return [("wfg:namespaced-names-are-elements", subset_of_keys(g.from_namespaced, ntt(g)))]
+    # CORRECTION (false alarm removed, see DESIGN.md "corrections"): the clause "every key of from_namespaced is an element" fails for
+    # __delitem__, rename_element, restrict_to and update(excluded_names=...) on names carrying a namespace (stale entries stay in the
+    # two namespace maps).  C15 only requires that *required names and defaults* refer to existing elements and that validation follows
+    # the current definition; the namespace maps are not part of that statement, so the clause demanded more than the property and is
+    # not claimed.  (The stale entries are reported as an observation in DESIGN.md.)
+    return []
 
 
 TYPE_DICT = type_const("dict")
